@@ -309,7 +309,7 @@ func init() {
 					continue
 				}
 				usesArgs, usesParent := false, false
-				ast.Inspect(sf.Decl.Body, func(nd ast.Node) bool {
+				sf.inspect(sf.Decl.Body, func(nd ast.Node) bool {
 					if f := sf.selField0(nd); f != nil {
 						if f.Name() == "Args" && isNamed(derefType(f.Type().(*types.Slice).Elem()), pathW, "ProviderInput") {
 							usesArgs = true
@@ -440,7 +440,7 @@ func init() {
 			src := lookupType(c.W, "providerSetSrc")
 			// universe: slice fields of ProviderSet appended to in processNewSet
 			var kinds []*types.Var
-			ast.Inspect(pn.Decl.Body, func(nd ast.Node) bool {
+			pn.inspect(pn.Decl.Body, func(nd ast.Node) bool {
 				as, ok := nd.(*ast.AssignStmt)
 				if !ok || len(as.Lhs) != 1 || len(as.Rhs) != 1 {
 					return true
@@ -484,7 +484,7 @@ func init() {
 					continue
 				}
 				found := false
-				ast.Inspect(fi.Decl.Body, func(nd ast.Node) bool {
+				fi.inspect(fi.Decl.Body, func(nd ast.Node) bool {
 					outer, ok := nd.(*ast.RangeStmt)
 					if !ok || fi.selField(outer.X) != kf || outer.Value == nil {
 						return true
@@ -720,7 +720,7 @@ func acyclicAnchors(fi *FuncInfo) *acyclic {
 	if m := fi.localVarsOfType("golang.org/x/tools/go/types/typeutil", "Map"); len(m) == 1 {
 		a.visited = m[0]
 	}
-	ast.Inspect(fi.Decl.Body, func(n ast.Node) bool {
+	fi.inspect(fi.Decl.Body, func(n ast.Node) bool {
 		f, ok := n.(*ast.ForStmt)
 		if !ok || a.loop != nil || f.Cond == nil {
 			return true
